@@ -11,20 +11,37 @@ COQ_CHECK = ("Model.C04", "check")
 COQ_FALLBACK = None
 COQ_IMPORTS = "From PAV Require Import Base.NumOps."
 SHARD = 12
-RULE = ("imaging datasets on random masks (densities 0.15-0.9, single pixel, ring with hole, full block, full line along the kernel's long "
-        "axis, corners + centre, a pixel pair at an extreme offset of the kernel overlap with the later pixel to the left or right) of <= 20 unmasked pixels in frames up to 10x10 whose kernel footprint stays inside the frame; PSFs of "
-        "shape {1x1,1x3,3x1,3x3,3x5,5x3,1x5,5x1,5x5,1x7,7x1} with signed / "
-        "non-negative integer entries (use_normalized_psf=False so every double operation is exact); integer data of either sign; noise in "
-        "{1/2,1,2,4} per pixel; 1..3 linear objects in random order mixing real MapperRectangular / MapperDelaunay objects (sub_size 1, 2, "
-        "per-pixel {1,2,4}; affine + bilinear source-plane distortions; with / without regularization) and function lists (random sparse "
-        "matrices, optional operated override); both use_w_tilde settings on the same inputs through aa.Inversion (class chosen, "
-        "operated_mapping_matrix, data_vector, curvature_matrix, mapped_reconstructed_data for an injected integer reconstruction), the two "
-        "formalisms compared with each other (D, F, mapped data, and the solved reconstruction where F+H is well conditioned); read-order "
-        "independence: a second instance on which curvature_reg_matrix / reconstruction / mapped_reconstructed_data are read BEFORE "
-        "operated_mapping_matrix / data_vector / curvature_matrix (late values judged by the same model + spec unless bit-identical); plus every "
-        "anchored util function called directly on synthetic inputs (random sparse encodings with filler entries, random upper-triangular "
-        "preloads, asymmetric matrices for the mirror, duplicate indices for the diagonal term). Non-trivial = at least 2 unmasked pixels "
-        "and a kernel with more than one non-zero entry (inversion cases) / any util case; distinct = distinct JSON input.")
+RULE = ("(1) inversions: imaging datasets on random masks (densities 0.15-0.9, single pixel, ring with hole, full block, full line along the "
+        "kernel's long axis, corners + centre, a pixel pair at an extreme offset of the kernel overlap with the later pixel to the left or "
+        "right, checkerboard, diagonal + anti-diagonal) of <= 20 unmasked pixels in frames up to 10x10 whose kernel footprint stays inside "
+        "the frame, with unit / anisotropic pixel scales (2 x 1/2, 1/2 x 2, 1/4) and shifted origins at the CLASS layer; PSFs of shape "
+        "{1x1,1x3,3x1,3x3,3x5,5x3,1x5,5x1,5x5,1x7,7x1}: signed, non-negative, sparse, point-symmetric, positive core with negative wings, "
+        "pure off-centre shifts (use_normalized_psf=False: every double operation exact); integer data of either sign; noise in "
+        "{1/2,1,2,4}; 1..3 linear objects in random order mixing real MapperRectangular / MapperDelaunay objects (sub_size 1, 2, per-pixel "
+        "{1,2,4}; affine + bilinear source-plane distortions; with / without regularization) and function lists (random sparse matrices, "
+        "optional operated override), function lists before and after a mapper, several unregularized objects; every third case carries "
+        "an EXTREME: data x 2^-30 / 2^30 / all zero, noise x 2^-20 / 2^20 / spread over 2^-8..2^8, psf x 2^-20 / 2^20, equal noise + "
+        "symmetric kernel + full block (exact ties), one basis column x 2^-20 / x 2^20 / zero / negative throughout; comparisons inside "
+        "Coq are exact, or (Delaunay weights, default 1e-3 diagonal term, power-of-two extremes) within 1e-9 RELATIVE TO A BOUND ON THE "
+        "TERMS OF EACH ENTRY (column scale x column scale x sum 1/sigma^2 ...), so a tiny column is judged at its own scale. Both "
+        "use_w_tilde settings on the same inputs through aa.Inversion; ONE instance per formalism whose cached properties are read in a "
+        "random order with repeats (operated_mapping_matrix, data_vector, curvature_matrix, curvature_reg_matrix, reconstruction; "
+        "curvature_matrix again after curvature_reg_matrix), every read judged by the cell model and by the specification (KSeq), then "
+        "mapped_reconstructed_data of the same instance for an injected integer reconstruction; 30% of the instances use the default "
+        "positive-only solver; the two formalisms compared with each other (D, F, mapped data, solved reconstruction where F+H is well "
+        "conditioned); the caller's arrays / settings fingerprinted around every inversion. (2) sessions: a history in one process on "
+        "SHARED objects -- one Imaging, one settings object per formalism, one list of linear objects -- with three of: other objects of "
+        "the same kinds and shapes then the first list again; DatasetInterface(data = data - model (derived by arithmetic), noise_map, "
+        "convolver, w_tilde = imaging.w_tilde); Preloads(w_tilde = the w_tilde of an Imaging with OTHER data, use_w_tilde=True), "
+        "Preloads(use_w_tilde=False), the same Preloads object again after an in-place edit of the data; in-place edit of the data; in-place "
+        "edit of a basis function; another dataset (other psf / noise / data, same first noise value) on the same mask with the same linear "
+        "objects, then the first dataset again; DatasetInterface with the noise map scaled by arithmetic and the stale w_tilde "
+        "(InversionException expected from the w-tilde class, normal equations of the scaled noise from the mapping class); a dataset "
+        "derived by a second apply_mask; a dataset derived by apply_over_sampling; every inversion judged (KInvW) on the values read from "
+        "the dataset actually passed in at that moment. (3) every anchored util function called directly on synthetic inputs (random sparse "
+        "encodings with filler entries, random upper-triangular preloads, asymmetric matrices for the mirror, duplicate indices for the "
+        "diagonal term). Non-trivial = at least 2 unmasked pixels and a kernel with more than one non-zero entry (inversion cases) / any "
+        "session or util case; distinct = distinct JSON input.")
 EXHAUSTIVE = {}
 TRUSTED = ["hand-written Gallina model coq/Model/C04.v (scatter loops, sequential symmetrisation / mirror / block assignments, running-index "
            "walk of the preload, param ranges by running count) on top of the convolver model coq/Model/C03.v; tied to /repo by this "
@@ -35,9 +52,11 @@ TRUSTED = ["hand-written Gallina model coq/Model/C04.v (scatter loops, sequentia
            "a mapper enters as its mapping_matrix together with its unique-mapping encoding (that the encoding represents the matrix is "
            "C06's theorem; here it is re-checked numerically on every generated mapper)",
            "the reconstruction itself (np.linalg.solve / fnnls) is C05's; here it is an input of mapped_reconstructed_data"]
-ASSUMPTIONS = ["real arithmetic (no rounding): theorems over R; correspondence exact or within 1e-9 relative",
+ASSUMPTIONS = ["real arithmetic (no rounding): theorems over R; correspondence exact or within 1e-9 relative to the scale of each entry",
                "kernel footprint of every unmasked pixel inside the frame (the property's quantifier); positive noise on unmasked pixels",
-               "preloads (Preloads object) are not exercised here (C15)"]
+               "a w_tilde object handed over separately comes from an Imaging with the same mask, psf and noise map (a stale object that passes "
+               "the first-value test of check_noise_map is the caller's error: no claim); linear objects pairwise distinct",
+               "of the Preloads object only w_tilde and use_w_tilde are exercised here (the other fields are C15's)"]
 
 PSF_SHAPES = [(1, 1), (1, 3), (3, 1), (3, 3), (3, 3), (3, 5), (5, 3), (1, 5), (5, 1), (5, 5), (1, 7), (7, 1)]
 NOISE = [Fraction(1, 2), Fraction(1), Fraction(2), Fraction(4)]
@@ -88,6 +107,18 @@ def rand_mask(rng, H, W, kh, kw, style, maxpix):
             y, x = rng.choice(cells); m[y][x] = False
         for (y, x) in cells:
             if rng.random() < 0.1: m[y][x] = False
+    elif style == "checker":
+        # every other admissible cell: no two unmasked pixels are neighbours, all overlaps go through masked pixels
+        par = rng.randrange(2)
+        for (y, x) in cells:
+            if (y + x) % 2 == par: m[y][x] = False
+        if all(all(r) for r in m):
+            y, x = rng.choice(cells); m[y][x] = False
+    elif style == "diag":
+        # a diagonal and an anti-diagonal run: the later pixel of a pair lies to the right of the earlier one on one, to the left on the other
+        for k in range(min(y1 - y0, x1 - x0)):
+            m[y0 + k][x0 + k] = False
+            if rng.random() < 0.7: m[y0 + k][x1 - 1 - k] = False
     elif style == "corners":
         for (y, x) in ((y0, x0), (y0, x1 - 1), (y1 - 1, x0), (y1 - 1, x1 - 1), ((y0 + y1 - 1) // 2, (x0 + x1 - 1) // 2)): m[y][x] = False
     else:
@@ -102,13 +133,16 @@ def rand_mask(rng, H, W, kh, kw, style, maxpix):
     return m
 
 def rand_kernel(rng, kh, kw, mode=None):
-    mode = mode or rng.choice(["signed", "signed", "nonneg", "sparse", "symmetric", "negwings"])
+    mode = mode or rng.choice(["signed", "signed", "nonneg", "sparse", "symmetric", "negwings", "shift"])
     while True:
         if mode == "nonneg": K = [[rng.randint(0, 3) for _ in range(kw)] for _ in range(kh)]
         elif mode == "sparse": K = [[rng.choice([0, 0, 1, -1, 2]) for _ in range(kw)] for _ in range(kh)]
         elif mode == "symmetric":      # point-symmetric and mirror-symmetric: ties between the two triangles of the overlap matrix
             q = [[rng.randint(-2, 3) for _ in range(kw // 2 + 1)] for _ in range(kh // 2 + 1)]
             K = [[q[min(y, kh - 1 - y)][min(x, kw - 1 - x)] for x in range(kw)] for y in range(kh)]
+        elif mode == "shift":          # one or two off-centre entries: a pure shift, maximally asymmetric overlaps
+            K = [[0] * kw for _ in range(kh)]
+            for _ in range(rng.choice([1, 1, 2])): K[rng.randrange(kh)][rng.randrange(kw)] = rng.choice([1, 2, -1, 3])
         elif mode == "negwings":       # positive core, negative wings: every cross term between neighbours can be negative
             K = [[(rng.randint(2, 4) if (y, x) == (kh // 2, kw // 2) else -rng.randint(0, 2)) for x in range(kw)] for y in range(kh)]
         else: K = [[rng.randint(-3, 3) for _ in range(kw)] for _ in range(kh)]
@@ -116,7 +150,7 @@ def rand_kernel(rng, kh, kw, mode=None):
 
 GEOMS = [None, None, None, {"ps": ["2", "1/2"], "origin": ["3/4", "-5/4"]}, {"ps": ["1/4", "1/4"], "origin": ["0", "0"]},
          {"ps": ["1/2", "2"], "origin": ["-1/2", "3"]}]
-MASK_STYLES = ["random", "random", "random", "single", "ring", "full", "line", "corners", "pair", "pair"]
+MASK_STYLES = ["random", "random", "random", "single", "ring", "full", "line", "corners", "pair", "pair", "checker", "diag"]
 def rand_dataset(rng, maxpix, ext=None, geom=None):
     """ext: None | 'data_tiny' | 'data_huge' | 'noise_tiny' | 'noise_huge' | 'noise_spread' | 'psf_tiny' | 'psf_huge' | 'zero_data' |
     'flat' (equal noise, symmetric kernel, full block: exact ties).  Every factor is a power of two."""
@@ -125,7 +159,7 @@ def rand_dataset(rng, maxpix, ext=None, geom=None):
     m = rand_mask(rng, H, W, kh, kw, "full" if ext == "flat" else rng.choice(MASK_STYLES), maxpix)
     K = rand_kernel(rng, kh, kw, "symmetric" if ext == "flat" else None)
     fd = {"data_tiny": Fraction(1, 2 ** 30), "data_huge": Fraction(2 ** 30), "zero_data": Fraction(0)}.get(ext, Fraction(1))
-    fs = {"noise_tiny": Fraction(1, 2 ** 12), "noise_huge": Fraction(2 ** 12)}.get(ext, Fraction(1))
+    fs = {"noise_tiny": Fraction(1, 2 ** 20), "noise_huge": Fraction(2 ** 20)}.get(ext, Fraction(1))
     fk = {"psf_tiny": Fraction(1, 2 ** 20), "psf_huge": Fraction(2 ** 20)}.get(ext, Fraction(1))
     data = [[S(rng.randint(-9, 9) * fd) for _ in range(W)] for _ in range(H)]
     noise = [[S(rng.choice(NOISE) * fs) for _ in range(W)] for _ in range(H)]
@@ -184,7 +218,7 @@ def synth_preload(rng, n):
         lens.append(len(js))
     return {"pre": pre, "idx": idx, "lens": lens}
 
-EXTS_DS = ["data_tiny", "data_huge", "noise_tiny", "noise_huge", "noise_spread", "psf_tiny", "psf_huge", "zero_data", "flat"]
+EXTS_DS = ["psf_tiny", "data_tiny", "noise_huge", "noise_tiny", "psf_huge", "data_huge", "noise_spread", "zero_data", "flat", "psf_tiny"]
 EXTS_COL = ["tiny", "huge", "zero", "neg"]
 SESS_STEPS = ["objs2", "iface", "preload", "edit_data", "edit_func", "ds2", "iface_noise0", "remask", "oversampling"]
 
@@ -344,8 +378,8 @@ def close(a, b, rtol=1e-8):
     scale = max(float(np.max(np.abs(b))) if b.size else 0.0, float(np.max(np.abs(a))) if a.size else 0.0)
     return bool(np.all(np.abs(a - b) <= rtol * scale))
 
-def settings_for(aa, use, eps_in):
-    kw = dict(use_w_tilde=use, use_positive_only_solver=False)
+def settings_for(aa, use, eps_in, pos=False):
+    kw = dict(use_w_tilde=use, use_positive_only_solver=pos)
     if eps_in is not None: kw["no_regularization_add_to_curvature_diag_value"] = float(Fraction(eps_in))
     return aa.SettingsInversion(**kw)
 
@@ -440,7 +474,11 @@ def run_inv(aa, inp):
         fp0 = fingerprint(aa, dataset, los, settings, wts=[dataset.w_tilde])
         # the regularization matrix, from a twin instance (the instance under observation is only touched by the reads below)
         H = np.array(aa.Inversion(dataset=dataset, linear_obj_list=los, settings=settings).regularization_matrix)
-        inv = aa.Inversion(dataset=dataset, linear_obj_list=los, settings=settings)
+        # the observed instance sometimes runs with the library's default positive-only solver (its reconstruction reads
+        # curvature_reg_matrix / data_vector along another path; the values of B, D, F do not depend on it)
+        pos = rrng.random() < 0.3
+        inv = aa.Inversion(dataset=dataset, linear_obj_list=los, settings=settings_for(aa, use, eps_in, pos) if pos else settings)
+        if pos: tally("positive_only_solver")
         is_wt = isinstance(inv, aa.InversionImagingWTilde)
         tally("class_as_modelled" if is_wt == (use and has_mapper) else "class_differs_from_model")
         eps = frac(settings.no_regularization_add_to_curvature_diag_value)
@@ -547,6 +585,9 @@ def run_sess(aa, inp):
             pl = aa.Preloads(w_tilde=A3.w_tilde, use_w_tilde=True)
             observe("preload", A, los, objs, preloads=pl, wts=[wA, A3.w_tilde])
             observe("preload_off", A, los, objs, preloads=aa.Preloads(use_w_tilde=False), wts=[wA], uses=(True,))
+            # the SAME Preloads object again after the data were edited in place (nothing remembered in it may be used for the data)
+            j = rrng.randrange(n); A.data[j] = float(A.data[j]) + 6.0
+            observe("preload_again", A, los, objs, preloads=pl, wts=[wA, A3.w_tilde], uses=(True,))
         elif step == "edit_data":
             # the caller edits the data in place between two inversions on the same dataset object
             j = rrng.randrange(n); A.data[j] = float(A.data[j]) + rrng.choice([-7.0, 5.0, 11.0])
